@@ -65,6 +65,12 @@ pub enum Case {
     SockOpt { which: u8, value: u32, tcp: bool },
     Pipe { direct_flag: bool, payload: u16, kind_direct: bool },
     Socket { domain: u8, ty: u8, direct: bool },
+    /// recv_n / recv_n_vectored with MSG_PEEK whose first receive is short.
+    RecvN { family: AddrFamily, c1: u16, vectored: bool },
+    Splice { to_pipe: bool, off: Option<u32>, len: u16, file_len: u16, more: bool },
+    Convert { payload: u16, clone_first: bool },
+    Madvise { pages: u8, off: u8, len: u8, advice: u8 },
+    Wait { code: u8 },
 }
 
 struct Real {
@@ -81,9 +87,14 @@ impl Real {
 
     /// Drive a future to completion on the real ring.
     fn block_on<F: Future>(&mut self, fut: F) -> Result<F::Output, String> {
+        self.block_on_for(fut, 4000)
+    }
+
+    /// Like `block_on`, giving up after `rounds` x 5 ms.
+    fn block_on_for<F: Future>(&mut self, fut: F, rounds: u32) -> Result<F::Output, String> {
         let mut fut = Box::pin(fut);
         let w = WakerHandle::new();
-        for _ in 0..4000 {
+        for _ in 0..rounds {
             let mut cx = Context::from_waker(&w.waker);
             match catch(|| fut.as_mut().poll(&mut cx)) {
                 Err((m, l)) => {
@@ -96,7 +107,8 @@ impl Real {
                 }
             }
         }
-        Err("operation did not complete within 20 s".into())
+        // The operation is abandoned (its future is dropped, which cancels it).
+        Err(format!("operation did not complete within {} ms", rounds * 5))
     }
 }
 
@@ -202,6 +214,11 @@ impl Property for C13 {
             3 => (0u8..16, any::<u32>(), any::<bool>()).prop_map(|(which, value, tcp)| Case::SockOpt { which, value, tcp }),
             2 => (any::<bool>(), 1u16..3000, any::<bool>()).prop_map(|(direct_flag, payload, kind_direct)| Case::Pipe { direct_flag, payload, kind_direct }),
             2 => (0u8..3, 0u8..3, any::<bool>()).prop_map(|(domain, ty, direct)| Case::Socket { domain, ty, direct }),
+            2 => (family(), 1u16..3000, any::<bool>()).prop_map(|(family, c1, vectored)| Case::RecvN { family, c1, vectored }),
+            3 => (any::<bool>(), proptest::option::weighted(0.6, 0u32..20_000), 1u16..9000, 0u16..20_000, any::<bool>()).prop_map(|(to_pipe, off, len, file_len, more)| Case::Splice { to_pipe, off, len, file_len, more }),
+            2 => (1u16..5000, any::<bool>()).prop_map(|(payload, clone_first)| Case::Convert { payload, clone_first }),
+            2 => (1u8..6, 0u8..6, 0u8..7, 0u8..5).prop_map(|(pages, off, len, advice)| Case::Madvise { pages, off, len, advice }),
+            1 => any::<u8>().prop_map(|code| Case::Wait { code }),
         ]
         .boxed()
     }
@@ -228,6 +245,11 @@ impl Property for C13 {
             Case::SockOpt { which, value, tcp } => run_sockopt(&mut real, *which, *value, *tcp, &mut classes),
             Case::Pipe { direct_flag, payload, kind_direct } => run_pipe(&mut real, *direct_flag, *payload, *kind_direct, &mut classes),
             Case::Socket { domain, ty, direct } => run_socket(&mut real, *domain, *ty, *direct, &mut classes),
+            Case::RecvN { family, c1, vectored } => run_recv_n(&mut real, *family, *c1, *vectored, &mut classes),
+            Case::Splice { to_pipe, off, len, file_len, more } => run_splice(&mut real, *to_pipe, *off, *len, *file_len, *more, &mut classes),
+            Case::Convert { payload, clone_first } => run_convert(&mut real, *payload, *clone_first, &mut classes),
+            Case::Madvise { pages, off, len, advice } => run_madvise(&mut real, *pages, *off, *len, *advice, &mut classes),
+            Case::Wait { code } => run_wait(&mut real, *code, &mut classes),
         };
         if let Err(e) = res {
             if let Some(msg) = e.strip_prefix("infra:") {
@@ -256,6 +278,11 @@ impl Property for C13 {
             Case::SockOpt { .. } => "sockopt",
             Case::Pipe { .. } => "pipe",
             Case::Socket { .. } => "socket",
+            Case::RecvN { .. } => "recv_n",
+            Case::Splice { .. } => "splice",
+            Case::Convert { .. } => "convert",
+            Case::Madvise { .. } => "madvise",
+            Case::Wait { .. } => "wait",
         };
         ctx.class(fam);
         classes.sort();
@@ -1394,5 +1421,313 @@ fn run_socket(real: &mut Real, domain: u8, ty: u8, direct: bool, classes: &mut V
     if domain % 3 == 2 {
         classes.push("unix-address");
     }
+    Ok(())
+}
+
+fn unread(fd: RawFd) -> i32 {
+    let mut n: i32 = 0;
+    unsafe { libc::ioctl(fd, libc::FIONREAD, &mut n) };
+    n
+}
+
+/// Wait (bounded) until both sockets hold `want` unread bytes.
+fn settle(a: RawFd, b: RawFd, want: i32) -> (i32, i32) {
+    for _ in 0..400 {
+        let (x, y) = (unread(a), unread(b));
+        if x == want && y == want {
+            return (x, y);
+        }
+        std::thread::sleep(Duration::from_micros(500));
+    }
+    (unread(a), unread(b))
+}
+
+fn run_recv_n(real: &mut Real, family: AddrFamily, c1: u16, vectored: bool, classes: &mut Vec<&'static str>) -> Result<(), String> {
+    let scratch = Scratch::new("recvn");
+    if matches!(family, AddrFamily::UnixPath | AddrFamily::UnixAbstract) {
+        classes.push("unix-address");
+    }
+    let (ca, sa, _la) = a10_stream_pair(real, family, false, &scratch, 20)?;
+    let (cb, sb) = std_stream_pair(family, &scratch)?;
+    let (Some(ca_fd), Some(sa_fd)) = (ca.as_fd().map(|f| f.as_raw_fd()), sa.as_fd().map(|f| f.as_raw_fd())) else { return Err("infra:no raw fd".into()) };
+    let c1 = c1 as usize;
+    let data = pattern(71, c1);
+    for fd in [ca_fd, cb.as_raw_fd()] {
+        let n = unsafe { libc::send(fd, data.as_ptr().cast(), c1, libc::MSG_NOSIGNAL) };
+        if n != c1 as isize {
+            return Err("infra:send".into());
+        }
+    }
+    let (x, y) = settle(sa_fd, sb.as_raw_fd(), c1 as i32);
+    if x != c1 as i32 || y != c1 as i32 {
+        return Err(format!("infra:data did not arrive ({x}, {y} of {c1})"));
+    }
+    // Peeking never consumes: asking for 2*c1 bytes takes two receives, both
+    // of which must carry MSG_PEEK.
+    let n = 2 * c1;
+    let a: io::Result<Vec<u8>> = if vectored {
+        classes.push("vectored");
+        let r = real.block_on_for(sa.recv_n_vectored([Vec::with_capacity(c1), Vec::with_capacity(c1)], n).flags(RecvFlag::PEEK), 400);
+        match r {
+            Ok(r) => r.map(|[x, y]| [x, y].concat()),
+            Err(e) => return Err(format!("hang:recv_n_vectored(PEEK): {e}; the equivalent recvmsg(2) loop terminates")),
+        }
+    } else {
+        match real.block_on_for(sa.recv_n(Vec::with_capacity(n), n).flags(RecvFlag::PEEK), 400) {
+            Ok(r) => r,
+            Err(e) => return Err(format!("hang:recv_n(PEEK): {e}; the equivalent recv(2) loop terminates")),
+        }
+    };
+    let mut bb = vec![0u8; n];
+    let mut got = 0usize;
+    let mut err = None;
+    while got < n {
+        let r = unsafe { libc::recv(sb.as_raw_fd(), bb[got..].as_mut_ptr().cast(), n - got, libc::MSG_PEEK) };
+        if r <= 0 {
+            err = Some(last_err());
+            break;
+        }
+        got += r as usize;
+    }
+    bb.truncate(got);
+    let b = match err {
+        Some(e) => Err(e),
+        None => Ok(bb),
+    };
+    same_outcome("recv_n(PEEK)", &a, &b)?;
+    // Nothing was consumed on either side.
+    let (x, y) = settle(sa_fd, sb.as_raw_fd(), c1 as i32);
+    if x != y {
+        return Err(format!("unread-bytes:recv_n(PEEK): {x} unread bytes left on the socket after recv_n with MSG_PEEK, {y} after the equivalent recv(2) loop"));
+    }
+    let a = real.block_on_for(sa.recv(Vec::with_capacity(c1)), 400).map_err(|e| format!("hang:recv after recv_n(PEEK): {e}"))?;
+    let mut bb = vec![0u8; c1];
+    let r = unsafe { libc::recv(sb.as_raw_fd(), bb.as_mut_ptr().cast(), c1, 0) };
+    same_outcome("recv after recv_n(PEEK)", &a, &if r < 0 { Err(last_err()) } else { Ok(bb[..r as usize].to_vec()) })?;
+    classes.push("peek");
+    classes.push("re-armed-with-flags");
+    Ok(())
+}
+
+fn run_splice(real: &mut Real, to_pipe: bool, off: Option<u32>, len: u16, file_len: u16, more: bool, classes: &mut Vec<&'static str>) -> Result<(), String> {
+    use std::os::fd::AsFd;
+    let scratch = Scratch::new("splice");
+    let (pa, pb) = (scratch.dir.join("a"), scratch.dir.join("b"));
+    let init = pattern(19, file_len as usize);
+    std::fs::write(&pa, &init).map_err(|e| format!("infra:{e}"))?;
+    std::fs::write(&pb, &init).map_err(|e| format!("infra:{e}"))?;
+    let fa = real.block_on(OpenOptions::new().read().write().open(real.sq.clone(), pa.clone()))?.map_err(|e| format!("infra:open: {e}"))?;
+    let fb = unsafe { libc::open(cstr(&pb).as_ptr(), libc::O_RDWR | libc::O_CLOEXEC) };
+    if fb < 0 {
+        return Err("infra:open".into());
+    }
+    let fb = unsafe { OwnedFd::from_raw_fd(fb) };
+    let mk_pipe = || -> Result<(OwnedFd, OwnedFd), String> {
+        let mut fds = [0i32; 2];
+        if unsafe { libc::pipe2(fds.as_mut_ptr(), libc::O_CLOEXEC | libc::O_NONBLOCK) } != 0 {
+            return Err("infra:pipe2".into());
+        }
+        Ok(unsafe { (OwnedFd::from_raw_fd(fds[0]), OwnedFd::from_raw_fd(fds[1])) })
+    };
+    let (ra, wa) = mk_pipe()?;
+    let (rb, wb) = mk_pipe()?;
+    let len = (len as usize).min(60_000);
+    let flags = if more { libc::SPLICE_F_MORE } else { 0 };
+    if off.is_some_and(|o| o != 0) {
+        classes.push("offset");
+    }
+    let drain = |fd: RawFd| -> Vec<u8> {
+        let mut out = Vec::new();
+        let mut buf = [0u8; 4096];
+        loop {
+            let n = unsafe { libc::read(fd, buf.as_mut_ptr().cast(), buf.len()) };
+            if n <= 0 {
+                break;
+            }
+            out.extend_from_slice(&buf[..n as usize]);
+        }
+        out
+    };
+    if to_pipe {
+        // file -> pipe
+        let mut f = fa.splice_to(wa.as_fd(), len as u32);
+        if let Some(o) = off {
+            f = f.from(o as u64);
+        }
+        if more {
+            f = f.flags(a10::io::SpliceFlag::MORE);
+        }
+        let a = real.block_on_for(f, 600).map_err(|e| format!("hang:splice_to: {e}"))?;
+        let mut o64 = off.map(|o| o as i64);
+        let r = unsafe { libc::splice(fb.as_raw_fd(), o64.as_mut().map_or(std::ptr::null_mut(), |o| o as *mut i64), wb.as_raw_fd(), std::ptr::null_mut(), len, flags as u32) };
+        same_outcome("splice_to", &a, &if r < 0 { Err(last_err()) } else { Ok(r as usize) })?;
+        let (da, db) = (drain(ra.as_raw_fd()), drain(rb.as_raw_fd()));
+        if da != db {
+            return Err(format!("payload:splice_to: the pipe received {} bytes through a10 and {} bytes through splice(2), or different bytes", da.len(), db.len()));
+        }
+    } else {
+        // pipe -> file
+        let data = pattern(23, len);
+        for w in [&wa, &wb] {
+            let n = unsafe { libc::write(w.as_raw_fd(), data.as_ptr().cast(), data.len()) };
+            if n != data.len() as isize {
+                return Err("infra:pipe write".into());
+            }
+        }
+        let mut f = fa.splice_from(ra.as_fd(), len as u32);
+        if let Some(o) = off {
+            f = f.at(o as u64);
+        }
+        if more {
+            f = f.flags(a10::io::SpliceFlag::MORE);
+        }
+        let a = real.block_on_for(f, 600).map_err(|e| format!("hang:splice_from: {e}"))?;
+        let mut o64 = off.map(|o| o as i64);
+        let r = unsafe { libc::splice(rb.as_raw_fd(), std::ptr::null_mut(), fb.as_raw_fd(), o64.as_mut().map_or(std::ptr::null_mut(), |o| o as *mut i64), len, flags as u32) };
+        same_outcome("splice_from", &a, &if r < 0 { Err(last_err()) } else { Ok(r as usize) })?;
+        let (ca, cb) = (std::fs::read(&pa).map_err(|e| format!("infra:{e}"))?, std::fs::read(&pb).map_err(|e| format!("infra:{e}"))?);
+        if ca != cb {
+            let first = ca.iter().zip(&cb).position(|(x, y)| x != y).unwrap_or(ca.len().min(cb.len()));
+            return Err(format!("file-content:splice_from: the twin files differ (sizes {} vs {}, first difference at byte {first})", ca.len(), cb.len()));
+        }
+        let (da, db) = (drain(ra.as_raw_fd()), drain(rb.as_raw_fd()));
+        if da.len() != db.len() {
+            return Err(format!("payload:splice_from: {} bytes left in the pipe after a10, {} after splice(2)", da.len(), db.len()));
+        }
+    }
+    if let Some(bfd) = fa.as_fd() {
+        let (x, y) = (unsafe { libc::lseek(bfd.as_raw_fd(), 0, libc::SEEK_CUR) }, unsafe { libc::lseek(fb.as_raw_fd(), 0, libc::SEEK_CUR) });
+        if x != y {
+            return Err(format!("file-position:splice: file position {x} after a10, {y} after splice(2)"));
+        }
+    }
+    classes.push("splice");
+    Ok(())
+}
+
+fn run_convert(real: &mut Real, payload: u16, clone_first: bool, classes: &mut Vec<&'static str>) -> Result<(), String> {
+    let scratch = Scratch::new("conv");
+    let (pa, pb) = (scratch.dir.join("a"), scratch.dir.join("b"));
+    for p in [&pa, &pb] {
+        std::fs::write(p, pattern(1, 100)).map_err(|e| format!("infra:{e}"))?;
+    }
+    let data = pattern(41, payload as usize);
+    // Twin A: regular -> (clone) -> direct -> write through the direct one ->
+    // back to a regular one -> read through that.
+    let orig = real.block_on(OpenOptions::new().read().write().open(real.sq.clone(), pa.clone()))?.map_err(|e| format!("infra:open: {e}"))?;
+    let src = if clone_first {
+        classes.push("try_clone");
+        orig.try_clone().map_err(|e| format!("failure-vs-success:try_clone: {e}"))?
+    } else {
+        real.block_on(OpenOptions::new().read().write().open(real.sq.clone(), pa.clone()))?.map_err(|e| format!("infra:open: {e}"))?
+    };
+    let direct = real.block_on(src.to_direct_descriptor())?.map_err(|e| format!("failure-vs-success:to_direct_descriptor: {e}"))?;
+    if direct.as_fd().is_some() {
+        return Err("value:to_direct_descriptor: the result is not a direct descriptor".into());
+    }
+    let a = real.block_on(direct.write(data.clone()))?;
+    let back = real.block_on(direct.to_file_descriptor())?.map_err(|e| format!("failure-vs-success:to_file_descriptor: {e}"))?;
+    let Some(back_fd) = back.as_fd().map(|f| f.as_raw_fd()) else { return Err("value:to_file_descriptor: the result is not a regular descriptor".into()) };
+    // Twin B: dup, write, dup.
+    let ob = unsafe { libc::open(cstr(&pb).as_ptr(), libc::O_RDWR | libc::O_CLOEXEC) };
+    let sb = if clone_first { unsafe { libc::fcntl(ob, libc::F_DUPFD_CLOEXEC, 0) } } else { unsafe { libc::open(cstr(&pb).as_ptr(), libc::O_RDWR | libc::O_CLOEXEC) } };
+    if ob < 0 || sb < 0 {
+        return Err("infra:open".into());
+    }
+    let (ob, sb) = unsafe { (OwnedFd::from_raw_fd(ob), OwnedFd::from_raw_fd(sb)) };
+    let n = unsafe { libc::write(sb.as_raw_fd(), data.as_ptr().cast(), data.len()) };
+    same_outcome("write through converted descriptor", &a, &if n < 0 { Err(last_err()) } else { Ok(n as usize) })?;
+    let bb = unsafe { libc::fcntl(sb.as_raw_fd(), libc::F_DUPFD_CLOEXEC, 0) };
+    let bb = unsafe { OwnedFd::from_raw_fd(bb) };
+    // All descriptors of one open file description share the position.
+    let pos = |fd: RawFd| unsafe { libc::lseek(fd, 0, libc::SEEK_CUR) };
+    let (x, y) = (pos(back_fd), pos(bb.as_raw_fd()));
+    if x != y {
+        return Err(format!("file-position:convert: position {x} through the descriptor installed by to_file_descriptor, {y} through dup(2)"));
+    }
+    if let Some(o) = orig.as_fd() {
+        let (x, y) = (pos(o.as_raw_fd()), pos(ob.as_raw_fd()));
+        if x != y {
+            return Err(format!("file-position:convert: position of the original descriptor {x} vs {y}"));
+        }
+    }
+    let (fa, fb) = (unsafe { libc::fcntl(back_fd, libc::F_GETFD) }, unsafe { libc::fcntl(bb.as_raw_fd(), libc::F_GETFD) });
+    if fa != fb {
+        return Err(format!("open-cloexec:to_file_descriptor: F_GETFD {fa} vs {fb} (dup with CLOEXEC)"));
+    }
+    let (ca, cb) = (std::fs::read(&pa).map_err(|e| format!("infra:{e}"))?, std::fs::read(&pb).map_err(|e| format!("infra:{e}"))?);
+    if ca != cb {
+        return Err(format!("file-content:convert: twin files differ (sizes {} vs {})", ca.len(), cb.len()));
+    }
+    // Read back through the re-installed descriptor at an offset.
+    let a = real.block_on(back.read(Vec::with_capacity(64)).from(10))?;
+    let mut buf = vec![0u8; 64];
+    let n = unsafe { libc::pread(bb.as_raw_fd(), buf.as_mut_ptr().cast(), 64, 10) };
+    same_outcome("read through re-installed descriptor", &a, &if n < 0 { Err(last_err()) } else { Ok(buf[..n as usize].to_vec()) })?;
+    classes.push("direct-descriptor");
+    classes.push("converted");
+    Ok(())
+}
+
+fn run_madvise(real: &mut Real, pages: u8, off: u8, len: u8, advice: u8, classes: &mut Vec<&'static str>) -> Result<(), String> {
+    let page = 4096usize;
+    let total = pages as usize * page;
+    let map = || -> Result<*mut u8, String> {
+        let p = unsafe { libc::mmap(std::ptr::null_mut(), total, libc::PROT_READ | libc::PROT_WRITE, libc::MAP_PRIVATE | libc::MAP_ANONYMOUS, -1, 0) };
+        if p == libc::MAP_FAILED {
+            return Err("infra:mmap".into());
+        }
+        let s = unsafe { std::slice::from_raw_parts_mut(p.cast::<u8>(), total) };
+        for (j, b) in s.iter_mut().enumerate() {
+            *b = (j as u8) | 1;
+        }
+        Ok(p.cast())
+    };
+    let (ma, mb) = (map()?, map()?);
+    let off = (off as usize).min(pages as usize) * page;
+    let len = (len as usize * page).min(total.saturating_sub(off));
+    let flags = [a10::mem::AdviseFlag::NORMAL, a10::mem::AdviseFlag::RANDOM, a10::mem::AdviseFlag::SEQUENTIAL, a10::mem::AdviseFlag::WILL_NEED, a10::mem::AdviseFlag::DONT_NEED];
+    let raw = [libc::MADV_NORMAL, libc::MADV_RANDOM, libc::MADV_SEQUENTIAL, libc::MADV_WILLNEED, libc::MADV_DONTNEED];
+    let i = advice as usize % flags.len();
+    let a = real.block_on(a10::mem::advise(real.sq.clone(), unsafe { ma.add(off) }.cast(), len as u32, flags[i]))?;
+    let r = unsafe { libc::madvise(mb.add(off).cast(), len, raw[i]) };
+    let res = same_outcome("madvise", &a, &if r < 0 { Err(last_err()) } else { Ok(()) });
+    let (sa, sb) = unsafe { (std::slice::from_raw_parts(ma, total), std::slice::from_raw_parts(mb, total)) };
+    let same = sa == sb;
+    let first = sa.iter().zip(sb).position(|(x, y)| x != y);
+    unsafe {
+        libc::munmap(ma.cast(), total);
+        libc::munmap(mb.cast(), total);
+    }
+    res?;
+    if !same {
+        return Err(format!("memory:madvise: after advice {} on [{off}, {}) of {total} bytes the two regions differ, first at byte {first:?}", raw[i], off + len));
+    }
+    if raw[i] == libc::MADV_DONTNEED && len > 0 {
+        classes.push("dontneed");
+    }
+    if off > 0 {
+        classes.push("offset");
+    }
+    Ok(())
+}
+
+fn run_wait(real: &mut Real, code: u8, classes: &mut Vec<&'static str>) -> Result<(), String> {
+    let spawn = || std::process::Command::new("/bin/sh").arg("-c").arg(format!("exit {code}")).stdin(std::process::Stdio::null()).spawn().map_err(|e| format!("infra:spawn: {e}"));
+    let (ca, cb) = (spawn()?, spawn()?);
+    let a = real.block_on_for(a10::process::wait_on(real.sq.clone(), &ca).flags(a10::process::WaitOption::EXITED), 2000).map_err(|e| format!("hang:wait_on: {e}"))?;
+    let mut info: libc::siginfo_t = unsafe { std::mem::zeroed() };
+    let r = unsafe { libc::waitid(libc::P_PID, cb.id(), &mut info, libc::WEXITED) };
+    if r != 0 {
+        return Err("infra:waitid".into());
+    }
+    let a = a.map_err(|e| format!("failure-vs-success:wait_on: {e}"))?;
+    let (want_code, want_status) = (info.si_code, unsafe { info.si_status() });
+    use std::os::unix::process::ExitStatusExt;
+    let got_status = a.status().into_raw();
+    if a.pid() != ca.id() as i32 || format!("{:?}", a.code()) != format!("{:?}", a10::process::ChildStatus::EXITED) && want_code == libc::CLD_EXITED || got_status != want_status {
+        return Err(format!("value:wait_on: a10 reports pid {} (child {}), code {:?}, status {got_status}; waitid(2) on the twin reports si_code {want_code}, si_status {want_status}", a.pid(), ca.id(), a.code()));
+    }
+    classes.push("waitid");
     Ok(())
 }
